@@ -16,7 +16,7 @@ from autobean_refactor import token_store as TS
 
 from . import core
 
-CLASSES = {'x': 'x', 'n': '\n', 'm': 'a\nbc', 'e': '', 'k': 'a\n\nb'}
+CLASSES = {'x': 'x', 'n': '\n', 'm': 'a\nbc', 'e': '', 'k': 'a\n\nb', 'j': 'ab\nc', 'f': 'a\x0cb\nc'}
 _REV = {v: k for k, v in CLASSES.items()}
 
 
@@ -272,7 +272,7 @@ def enum_ops(exp: list[TS.Token], cfg: dict) -> list[list]:
                 if i == j and k == 0:
                     continue
                 for pat in patterns_by_k[k]:
-                    add_nl = sum(1 for c in pat if c in ('n', 'm', 'k'))
+                    add_nl = sum(1 for c in pat if c in ('n', 'm', 'k', 'j', 'f'))
                     if have_nl - removed_nl + add_nl > maxnl:
                         continue
                     if j > i:
@@ -302,7 +302,7 @@ def enum_ops(exp: list[TS.Token], cfg: dict) -> list[list]:
             for c in cfg['update_classes']:
                 if c == cur:
                     continue
-                delta = (c in ('n', 'm', 'k')) - ('\n' in t.raw_text)
+                delta = (c in ('n', 'm', 'k', 'j', 'f')) - ('\n' in t.raw_text)
                 if have_nl + delta > maxnl:
                     continue
                 ops.append(['update', idx, c])
